@@ -393,22 +393,35 @@ def gen_paths_fast(ctx, spec_dir, module, cfg, overrides=None, timeout=None, wor
     fn = dump + ".dump"
     text = open(fn).read()
     os.remove(fn)
-    hs = list(_HDR.finditer(text))
-    allp = {}
-    for i, m in enumerate(hs):
-        body = text[m.end(): hs[i + 1].start() if i + 1 < len(hs) else len(text)]
+    import hashlib
+    hs = [m.end() for m in _HDR.finditer(text)] + [len(text)]
+    starts = [m.start() for m in _HDR.finditer(text)] + [len(text)]
+    # pass 1: digest of every path and of its parent (parsed objects are not kept)
+    keys, parents = [], set()
+    for i in range(len(hs) - 1):
+        body = text[hs[i]: starts[i + 1]]
+        ctxt = _conjunct(body, "cfg")
+        acts = [[s["act"], s["args"]] for s in _tla_to_json(_conjunct(body, "hist"))]
+        keys.append(hashlib.md5((ctxt + _json.dumps(acts)).encode()).digest())
+        if acts:
+            parents.add(hashlib.md5((ctxt + _json.dumps(acts[:-1])).encode()).digest())
+    # pass 2: parse the maximal paths only
+    out, seen = [], set()
+    for i, k in enumerate(keys):
+        if k in parents or k in seen:
+            continue
+        seen.add(k)
+        body = text[hs[i]: starts[i + 1]]
         path = _tla_to_json(_conjunct(body, "hist"))
-        extra = {"cfg": _tla_to_json(_conjunct(body, "cfg"))}
-        key = _json.dumps([extra, [[s["act"], s["args"]] for s in path]], sort_keys=True)
-        allp[key] = (extra, path)
-    parents = set()
-    for key, (extra, path) in allp.items():
         if path:
-            parents.add(_json.dumps([extra, [[s["act"], s["args"]] for s in path[:-1]]], sort_keys=True))
-    out = [allp[k] for k in sorted(allp) if k not in parents and len(allp[k][1]) > 0]
+            out.append((k, {"cfg": _tla_to_json(_conjunct(body, "cfg"))}, path))
+    nall = len(set(keys))
+    del text
+    out.sort(key=lambda x: x[0])
+    out = [(e, p) for _, e, p in out]
     ctx.cov["gen_runs"] = ctx.cov.get("gen_runs", []) + [
         {"module": module, "cfg": cfg, "overrides": framework.canon(overrides or {}), "states": r.distinct,
-         "all_paths": len(allp), "maximal_paths": len(out), "wall_s": round(r.wall_s, 2)}]
+         "all_paths": nall, "maximal_paths": len(out), "wall_s": round(r.wall_s, 2)}]
     return out
 
 
@@ -493,7 +506,7 @@ def random_supervisor_trace(job):
     for e, o in zip(ev, obs[1:]):      # an answer whose effect was not observed (run cut) is dropped
         e["obs"] = o
         events.append(e)
-    return {"id": tid, "cfg": cfg, "ev": events}
+    return {"id": tid, "cfg": cfg, "ev": events, "job": list(job)}
 
 
 def random_subprocess_trace(job):
@@ -541,6 +554,156 @@ def random_subprocess_trace(job):
             else:
                 args = []
             ev.append({"a": a, "args": args, "obs": real.step(a, args)})
-        return {"id": tid, "cfg": cfg, "ev": ev}
+        return {"id": tid, "cfg": cfg, "ev": ev, "job": list(job)}
     finally:
         real.close()
+
+
+# ------------------------------------------------------------------ real children (C42 thorough)
+
+REAL_SIGNALS = [1, 2, 3, 6, 9, 10, 12, 13, 14, 15]     # terminating signals; core dumps disabled in the child
+
+
+def real_children_trace(job):
+    """Run real child processes through the *unshimmed* tornado.process.Subprocess on a real
+    asyncio loop with the real SIGCHLD handler (the only place where wall-clock time and real
+    processes are used).  items = [(abstract status, registration kind, register_late)]; a status
+    3000+s asks for signal s with core dumps enabled (cwd = a scratch directory): whether the
+    kernel dumps is the environment's choice, so the abstract status becomes 2000+s or 1000+s
+    according to the core bit of the raw status (the other 15 bits are still checked).
+    os.waitpid is tapped (pass-through) to learn the raw status the kernel reported.  Returns one
+    trace of "real" events for Trace_SubprocessExit (TLC checks raw = Encode(st) and the report)."""
+    import asyncio
+    import shutil
+    import tempfile
+    tid, items = job
+    from tornado import process
+    raws = {}
+    coredir = tempfile.mkdtemp(prefix="cores-", dir=__import__("harness.tlc", fromlist=["SCRATCH"]).SCRATCH)
+    real_waitpid = _real_os.waitpid
+
+    def tap(pid, options):
+        r = real_waitpid(pid, options)
+        if r[0] != 0:
+            raws[r[0]] = r[1]
+        return r
+
+    saved = (process.os, process.Subprocess._initialized, process.Subprocess._waiting)
+    process.os = _Delegate(_real_os, waitpid=tap)
+    process.Subprocess._initialized = False
+    process.Subprocess._waiting = {}
+    recs = []
+
+    async def main():
+        loop = asyncio.get_running_loop()
+        for st, kind, late in items:
+            if st < 1000:
+                cmd = ["/bin/sh", "-c", "exit %d" % st]
+            elif st < 3000:
+                cmd = ["/bin/sh", "-c", "ulimit -c 0; kill -%d $$; sleep 5" % (st % 1000)]
+            else:
+                cmd = ["/bin/sh", "-c", "ulimit -c unlimited; kill -%d $$; sleep 5" % (st % 1000)]
+            sp = process.Subprocess(cmd, cwd=coredir)
+            recs.append({"st": st, "kind": kind, "late": late, "sp": sp, "cbs": [], "fut": None, "done": loop.create_future()})
+
+        def register(r):
+            sp = r["sp"]
+            if r["kind"] == "cb":
+                def cb(v, r=r):
+                    r["cbs"].append(v)
+                    if not r["done"].done():
+                        r["done"].set_result(None)
+                sp.set_exit_callback(cb)
+            else:
+                r["fut"] = sp.wait_for_exit() if r["kind"] == "wr" else sp.wait_for_exit(raise_error=False)
+                r["fut"].add_done_callback(lambda f, r=r: r["done"].done() or r["done"].set_result(None))
+
+        for r in recs:
+            if not r["late"]:
+                register(r)
+        await asyncio.sleep(0.3)           # the others have exited by now: exit precedes registration
+        for r in recs:
+            if r["late"]:
+                register(r)
+        try:
+            await asyncio.wait_for(asyncio.gather(*[r["done"] for r in recs]), 60)
+        except asyncio.TimeoutError:
+            pass
+        await asyncio.sleep(0.05)          # a second callback invocation would show up here
+        process.Subprocess.uninitialize()
+
+    try:
+        with _Quiet():
+            asyncio.run(main())
+    finally:
+        process.os, process.Subprocess._initialized, process.Subprocess._waiting = saved
+        for r in recs:                      # never leave children behind
+            try:
+                if r["sp"].returncode is None:
+                    r["sp"].proc.kill()
+                    real_waitpid(r["sp"].pid, 0)
+            except Exception:
+                pass
+        shutil.rmtree(coredir, ignore_errors=True)
+    ev = []
+    for r in recs:
+        if r["st"] >= 3000:
+            r["st"] = (2000 if raws.get(r["sp"].pid, 0) & 0x80 else 1000) + r["st"] % 1000
+        f = r["fut"]
+        if f is None:
+            fs = {"s": "none", "v": 0}
+        elif not f.done():
+            fs = {"s": "pending", "v": 0}
+        elif f.exception() is not None:
+            fs = {"s": type(f.exception()).__name__, "v": getattr(f.exception(), "returncode", 0)}
+        else:
+            fs = {"s": "ok", "v": f.result()}
+        rc = r["sp"].returncode
+        ev.append({"a": "real", "args": [r["st"], raws.get(r["sp"].pid, -1), r["kind"]],
+                   "obs": {"rc": NO_RC if rc is None else rc, "cbs": r["cbs"], "fut": fs, "late": r["late"]}})
+    return {"id": tid, "cfg": {"nc": 1}, "ev": ev}
+
+
+# ------------------------------------------------------------------ binding self-tests (non-vacuity of the two bindings)
+
+def binding_selftest(ctx, module, cfg, overrides, good_traces, paths, replayer, corrupt_obs):
+    """Non-vacuity of the two bindings, on behaviours the code under test follows: the trace
+    validator must accept an accepted trace again but reject it after one observation was
+    corrupted and after one (observable) event was dropped; the replayer must report a
+    divergence when one expected value of a TLC path is corrupted.  Anything else is a machinery
+    failure.  With nothing accepted / followed (a broken tree) there is nothing to demonstrate."""
+    import copy
+    import os
+    from . import VERIF, framework
+    done = []
+    if good_traces:
+        trace = max(good_traces, key=lambda t: len(t["ev"]))
+        sd = os.path.join(VERIF, "specs", "proc")
+        cfgp = framework.make_cfg(os.path.join(sd, cfg), overrides, ctx.scratch, "selftest_%s" % cfg)
+        good = copy.deepcopy(trace)
+        good["id"] = 1
+        bad1 = copy.deepcopy(trace)
+        bad1["id"] = 2
+        corrupt_obs(bad1["ev"][-1]["obs"])
+        bad2 = copy.deepcopy(trace)
+        bad2["id"] = 3
+        ks = [i for i, e in enumerate(bad2["ev"][:-1]) if i > 0 and e["obs"] != bad2["ev"][i - 1]["obs"]]
+        if ks:
+            del bad2["ev"][ks[0]]
+        batch = [good, bad1] + ([bad2] if ks else [])
+        accepted, _ = framework._validate_shards(sd, module, cfgp, batch, 1, ctx.scratch, 300, verbose=False)
+        if accepted != {1}:
+            raise framework.Machinery("binding self-test: trace validator accepted %s of [unmodified, corrupted observation, "
+                                      "dropped event] (expected only the first)" % sorted(accepted))
+        done.append("corrupted observation and dropped event rejected by TLC")
+    mid = len(paths) // 2
+    for extra, path in paths[mid: mid + 20]:
+        if replayer(extra, path) is not None:
+            continue
+        p2 = copy.deepcopy(path)
+        corrupt_obs(p2[-1]["exp"])
+        if replayer(extra, p2) is None:
+            raise framework.Machinery("binding self-test: replayer did not notice a corrupted expected value")
+        done.append("corrupted expectation reported by the replayer")
+        break
+    ctx.cov["binding_selftest"] = "; ".join(done) or "skipped: the code under test follows no behaviour"
